@@ -18,7 +18,7 @@ import (
 // Step is one operation of a history together with the world the node must be in afterwards
 // when nothing fails.
 type Step struct {
-	Op      string // store | revert | l1head | snap | restart | kill | prune
+	Op      string // store | rejected | revert | l1head | snap | restart | kill | prune
 	B       *lib.Bundle
 	L1      *core.L1Head
 	PruneTo uint64
@@ -29,6 +29,8 @@ func (s *Step) String() string {
 	switch s.Op {
 	case "store":
 		return fmt.Sprintf("store(%d)", s.B.Block.Number)
+	case "rejected":
+		return fmt.Sprintf("rejected(%d)", s.B.Block.Number)
 	case "l1head":
 		return fmt.Sprintf("l1head(%d)", s.L1.BlockNumber)
 	case "prune":
@@ -89,6 +91,8 @@ type Node struct {
 	mf    *core.RunningEventFilter
 	mfErr error
 	mfOK  bool
+	// the error with which the last "rejected" step was refused
+	rejectErr error
 }
 
 // pruneBatchBytes is the batch-rotation threshold used for prune steps: small, so that a prune
@@ -102,6 +106,14 @@ func (n *Node) exec(s *Step) error {
 		switch s.Op {
 		case "store":
 			return lib.StoreOn(n.bc, s.B)
+		case "rejected":
+			// a block that does not extend the head (here: the head offered again) must be refused,
+			// and refusing it must change nothing, on disk or in memory
+			n.rejectErr = lib.StoreOn(n.bc, s.B)
+			if n.rejectErr == nil {
+				return fmt.Errorf("a block that does not extend the head was accepted")
+			}
+			return nil
 		case "revert":
 			return n.bc.RevertHead()
 		case "l1head":
@@ -223,6 +235,13 @@ func (b *builder) store(spec *lib.BlockSpec) {
 		panic(fmt.Sprintf("generator: %v", err))
 	}
 	b.push(Step{Op: "store", B: bd})
+}
+
+// rejected offers the present head once more.
+func (b *builder) rejected() {
+	if h := b.g.Head(); h != nil {
+		b.push(Step{Op: "rejected", B: h})
+	}
 }
 
 func (b *builder) revert() {
